@@ -1,0 +1,52 @@
+//go:build verif
+
+package smf
+
+// Contracts for the deductive verifier in /verif (govc). Comment-only.
+// ConvertToSMF1 (C16).
+
+// Add appends the track to the file (a file with more than one track is format 1); an open track is reported
+//@ func (*SMF).Add
+//@ modifies s.Tracks, s.format
+//@ ensures [P:C16] len(s.Tracks) == old(len(s.Tracks)) + 1 && s.Tracks[len(s.Tracks)-1] == t && forall i int :: 0 <= i && i < old(len(s.Tracks)) ==> s.Tracks[i] == old(s.Tracks[i])
+//@ ensures [P:C16] s.format == ((len(s.Tracks) > 1 && old(s.format) == 0) ? 1 : old(s.format))
+//@ ensures [P:C16] (result == nil) == (len(t) > 0 && isEOT(t[len(t)-1].Message))
+//@ loop 0 invariant -1 <= rangeindex && rangeindex < len(t)
+//@ loop 0 decreases len(t) - rangeindex
+
+// the message is a channel message (of channel m[0] & 0x0F)
+//@ macro isCh(m) = isChannelT(typeOfB(len(m), m[0]))
+// a terminated track that holds, before its end-of-track, only channel messages of channel c
+//@ macro chanTrack(t, c) = len(t) > 0 && isEOT(t[len(t)-1].Message) && forall j int :: 0 <= j && j < len(t) - 1 ==> (isCh(t[j].Message) && (t[j].Message[0] & 0x0F) == c)
+
+//@ func (SMF).ConvertToSMF1
+//@ requires len(src.Tracks) >= 1
+//@ ensures [P:C16] src.format != 1 ==> (dest.format == 1 && dest.TimeFormat == src.TimeFormat)
+//@ ensures [P:C16] src.format != 1 ==> (1 <= len(dest.Tracks) && len(dest.Tracks) <= 17)
+// everything that is not a channel message stays on the first track; every other track holds the channel messages of one channel
+//@ ensures [P:C16] src.format != 1 ==> forall j int :: 0 <= j && j < len(dest.Tracks[0]) ==> !isCh(dest.Tracks[0][j].Message)
+//@ ensures [P:C16] src.format != 1 ==> forall k int :: 1 <= k && k < len(dest.Tracks) ==> chanTrack(dest.Tracks[k], dest.Tracks[k][0].Message[0] & 0x0F)
+//@ ensures [P:C16] src.format != 1 ==> forall k int :: 0 <= k && k < len(dest.Tracks) ==> (len(dest.Tracks[k]) > 0 && isEOT(dest.Tracks[k][len(dest.Tracks[k])-1].Message))
+//@ loop 0 invariant -1 <= rangeindex && rangeindex < len(src.Tracks[0])
+//@ loop 0 invariant (len(metaTrack) == 0 || fresh(metaTrack)) && forall j int :: 0 <= j && j < len(metaTrack) ==> metaTrack[j] != nil
+//@ loop 0 invariant forall c int :: 0 <= c && c < 16 ==> (len(channelTracks[c]) == 0 || fresh(channelTracks[c]))
+//@ loop 0 invariant forall c int :: 0 <= c && c < 16 ==> forall j int :: 0 <= j && j < len(channelTracks[c]) ==> channelTracks[c][j] != nil
+//@ loop 0 invariant forall c int :: 0 <= c && c < 16 ==> forall j int :: 0 <= j && j < len(channelTracks[c]) ==> (isCh(channelTracks[c][j].Event.Message) && (channelTracks[c][j].Event.Message[0] & 0x0F) == c)
+//@ loop 0 invariant forall j int :: 0 <= j && j < len(metaTrack) ==> !isCh(metaTrack[j].Event.Message)
+//@ loop 0 decreases len(src.Tracks[0]) - rangeindex
+//@ loop 1 invariant -1 <= rangeindex && rangeindex < len(metaTrack)
+//@ loop 1 invariant forall j int :: 0 <= j && j < len(metaTarget) ==> !isCh(metaTarget[j].Message)
+//@ loop 1 decreases len(metaTrack) - rangeindex
+//@ loop 2 invariant 0 <= i && i <= 16 && dest.format == 1 && dest.TimeFormat == src.TimeFormat
+//@ loop 2 invariant 1 <= len(dest.Tracks) && len(dest.Tracks) <= 1 + i
+//@ loop 2 invariant forall j int :: 0 <= j && j < len(dest.Tracks[0]) ==> !isCh(dest.Tracks[0][j].Message)
+//@ loop 2 invariant forall k int :: 1 <= k && k < len(dest.Tracks) ==> chanTrack(dest.Tracks[k], dest.Tracks[k][0].Message[0] & 0x0F)
+//@ loop 2 invariant forall k int :: 0 <= k && k < len(dest.Tracks) ==> (len(dest.Tracks[k]) > 0 && isEOT(dest.Tracks[k][len(dest.Tracks[k])-1].Message))
+//@ loop 2 decreases 16 - i
+//@ loop 3 invariant -1 <= rangeindex && rangeindex < len(evts) && dest.format == 1 && dest.TimeFormat == src.TimeFormat && 0 <= i && i < 16
+//@ loop 3 invariant 1 <= len(dest.Tracks) && len(dest.Tracks) <= 1 + i
+//@ loop 3 invariant forall j int :: 0 <= j && j < len(dest.Tracks[0]) ==> !isCh(dest.Tracks[0][j].Message)
+//@ loop 3 invariant forall k int :: 1 <= k && k < len(dest.Tracks) ==> chanTrack(dest.Tracks[k], dest.Tracks[k][0].Message[0] & 0x0F)
+//@ loop 3 invariant len(t) == rangeindex + 1 && forall j int :: 0 <= j && j < len(t) ==> (isCh(t[j].Message) && (t[j].Message[0] & 0x0F) == uint8(i))
+//@ loop 3 invariant forall k int :: 0 <= k && k < len(dest.Tracks) ==> (len(dest.Tracks[k]) > 0 && isEOT(dest.Tracks[k][len(dest.Tracks[k])-1].Message))
+//@ loop 3 decreases len(evts) - rangeindex
